@@ -14,6 +14,7 @@ search  : same build, same input, screening on vs off, inputs biased to the scre
 """
 import json, math, os, random, subprocess, sys
 sys.path.insert(0, os.path.join(os.path.dirname(os.path.abspath(__file__)), ".."))
+from translate.util import TranslateError
 from vlib import core, build, pairlib as pl
 
 ALLOW = 1e-9
@@ -91,6 +92,16 @@ def main(ctx, cases=None):
     b = build.build("plain")
     tr_ok, classes = pl.regen(ctx, b)
     proofs_ok = ctx.lean_props("C06All", extra_modules=["Ecpint.Props.C06", "Ecpint.Props.C06b"]) if tr_ok else False
+    # "screening is a pure optimisation" presupposes that a screening decision is a function of the call's own arguments: the effect
+    # table of the working tree (translate/effects.py: linker inventory + clang AST of every library TU) must show no compute routine
+    # writing static storage - an estimate parked in a static would let one call's decision depend on another thread's or call's pair
+    try:
+        from translate import effects
+        _, einfo = effects.translate(b)
+        wr = {o["name"]: o["globalWrites"] for o in einfo["ops"] if o["name"].startswith("compute") and o["globalWrites"]}
+        ctx.obligation("screening decisions use per-call state only: no compute routine writes static storage (effect table)", not wr, json.dumps(wr)[:600])
+    except TranslateError as e:
+        ctx.obligation("screening decisions use per-call state only: no compute routine writes static storage (effect table)", False, str(e)[:600])
     drv = pl.pair_driver(b)
     if cases is None:
         cases = gen_cases(rng, quick)
